@@ -18,6 +18,11 @@ CONSTANTS
   DevSleepLimiter = FALSE
   DevWriteLock = FALSE
   DevRouteFirst = FALSE
+  DevCleanupFirst = FALSE
+  DevLegRegistered = FALSE
+  DevBufio = FALSE
+  AttachKinds = @@AK@@
+  HoldOn = @@HOLD@@
   Gen = TRUE
   Emit = TRUE
 INIT Init
